@@ -106,9 +106,24 @@ def job(args):
             vc.solve_obligation(o, timeout)
             if o.status == 'unknown':
                 vc.cvc5_retry(o, 20 if tier == 'quick' else 120)
+            cand = None
+            if o.status == 'unknown' and o.kind == 'post':
+                # candidate counterexample from the quantifier-free relaxation: believed only if the real code confirms it
+                model = vc.candidate_model(o, timeout)
+                if model is not None:
+                    cand = run_native('pyvc/replay_native.py', {
+                        'contract_file': c['module'], 'key': key, 'case': case, 'model': model})
+                    if cand.get('built') and cand.get('pre_ok') and cand.get('violated'):
+                        o.status, o.model = 'refuted', model
+                        o.note = 'solver unknown on the full query; counterexample of the quantifier-free relaxation confirmed on the real code'
+                    else:
+                        cand = None
             d = {'name': o.name, 'path': o.path, 'kind': o.kind, 'status': o.status, 'solver': o.solver,
                  'time': round(o.time, 4), 'note': o.note, 'line': o.line}
-            if o.status == 'refuted':
+            if cand is not None:
+                d['model'] = o.model
+                d['replay'] = cand
+            elif o.status == 'refuted':
                 d['model'] = o.model
                 if o.kind == 'post' and o.model is not None:
                     d['replay'] = run_native('pyvc/replay_native.py', {
@@ -221,6 +236,7 @@ def run_bounded(b, tier, seed):
     t0 = time.time()
     out = run_native(b['script'], {'tier': tier, 'seed': seed, 'args': b.get('args', {})}, timeout=b.get('timeout', 600) * (1 if tier == 'quick' else 6))
     out['name'] = b['name']
+    out['script'], out['args'] = b['script'], b.get('args', {})
     out['wall'] = round(time.time() - t0, 2)
     return out
 
@@ -286,7 +302,12 @@ def report(a, P, props, results, bounded, known, seed, t0, world):
             crashes.append(f"bounded {b['name']}: {b['error']}")
             continue
         bounded_cov.append({k: b.get(k) for k in ('name', 'evaluations', 'distinct', 'bound', 'wall', 'exhaustive', 'samples')})
+        seen_clauses = set()
         for v in b.get('violations', []):
+            if (v.get('clause'), v.get('finding_key')) in seen_clauses:
+                continue        # one witness per violated clause
+            seen_clauses.add((v.get('clause'), v.get('finding_key')))
+            v = dict(v, bounded_script=b.get('script'), bounded_args=b.get('args'))
             violations.append({'obligation': f"bounded:{b['name']}/{v.get('clause')}", 'contract': v.get('contract'),
                                'case': 'bounded', 'model': v.get('input'), 'replay': v, 'reproduced': True,
                                'file': v.get('file'), 'func': v.get('func'), 'solver': 'cpython', 'note': 'bounded tier',
@@ -384,6 +405,16 @@ def do_replay(prop, path):
         rp = json.load(f)
     props = load_props()
     P = props.PROPS[prop]
+    if rp.get('case') == 'bounded':
+        # a witness of the bounded tier: run the stand-in again on the current tree, look for the same clause
+        nr = rp.get('native_replay') or {}
+        out = run_native(nr.get('bounded_script'), {'tier': 'quick', 'seed': 0, 'args': nr.get('bounded_args') or {}}, timeout=1200)
+        hit = [v for v in out.get('violations', []) if v.get('clause') == nr.get('clause')]
+        print(json.dumps(hit[:1] or {'clause': nr.get('clause'), 'violated': False}, indent=1, default=str))
+        if hit:
+            print(f'VIOLATION property={prop} replay={path}')
+            return 1
+        return 0
     world = get_world(P['contract_files'])
     c = world.contracts[rp['contract']]
     out = run_native('pyvc/replay_native.py', {'contract_file': c['module'], 'key': rp['contract'], 'case': rp['case'],
